@@ -1746,11 +1746,17 @@ def _unparenthesize_grouping(self: fst.FST, shared: bool | None = True, *, star_
     else:  # in all other case we need to make sure par is not separating us from an alphanumeric on either side, and if so then just replace that par with a space
         if pend_col >= 2 and _re_par_close_alnums.match(l := lines[pend_ln], pend_col - 2):
             lines[pend_ln] = bistr(l[:pend_col - 1] + ' ' + l[pend_col:])
+
+            self._touchall(True, True, False)  # nothing moves but the cached parenthesis location of self, and what parents derive from it, is now stale
+
         else:
             self._put_src(None, end_ln, end_col, pend_ln, pend_col, True, self)
 
         if pcol and _re_par_open_alnums.match(l := lines[pln], pcol - 1):
             lines[pln] = bistr(l[:pcol] + ' ' + l[pcol + 1:])
+
+            self._touchall(True, True, False)
+
         else:
             self._put_src(None, pln, pcol, ln, col, False)
 
